@@ -92,6 +92,9 @@ pub struct State {
     pub reads: u64,
     /// yield at reads / commits (inside shuttle)
     pub yield_io: bool,
+    /// harness gate: while set, physical commits wait (the committer thread
+    /// yields), so everything written stays in the staging / pinned state
+    pub hold: bool,
     alt_toggle: bool,
 }
 
@@ -104,6 +107,7 @@ impl State {
             grouping,
             reads: 0,
             yield_io,
+            hold: false,
             alt_toggle: false,
         }
     }
@@ -249,6 +253,9 @@ impl WriteBatch for Batch {
 
     fn commit(self) {
         io_point(&self.db.st);
+        while self.db.st.lock().unwrap().hold {
+            shuttle::thread::yield_now();
+        }
         let mut st = self.db.st.lock().unwrap();
         for op in &self.ops {
             st.content.apply(op);
